@@ -210,16 +210,37 @@ pub fn replay_print(rep: &mut Report, rec: &J) {
 			}
 		};
 		rep.add("print_calls", 1);
-		if options_j(&made) != options_j(&o) {
-			rep.mismatch(aspect, json!({"what": format!("Options::{preset}() is not the documented preset"), "vector": rec, "documented": options_j(&o), "observed": options_j(&made)}));
+		// What the listed properties pin down: the COMPACT preset is the all-zero record (C08: no whitespace, so print_with of it is
+		// compact printing); the INLINE and compact presets never break a line (C13); `X_print()` prints with `Options::X()`.
+		// The remaining fields of the pretty / inline presets (two spaces, one space after ',' and ':', the 1-item / 16-column limit)
+		// are the specification's records of the documented defaults: a deviation there is an extension deviation (X04.preset).
+		let same_record = options_j(&made) == options_j(&o);
+		if !same_record {
+			let d = json!({"what": format!("Options::{preset}() is not the documented preset"), "vector": rec, "documented": options_j(&o), "observed": options_j(&made)});
+			if is_compact {
+				rep.mismatch("C08.compact", d);
+			} else if preset == "inline" && (made.array_limit.is_some() || made.object_limit.is_some()) {
+				rep.mismatch("C13.layout", d);
+			} else {
+				rep.mismatch("X04.preset", d);
+			}
 		}
-		if by_method != exp {
-			rep.mismatch(aspect, json!({"what": format!("{preset}_print() differs from the documented layout of the preset"), "vector": rec, "expected_text": exp, "observed_text": by_method}));
+		if by_method.contains('\n') && preset != "pretty" {
+			rep.mismatch("C13.layout", json!({"what": format!("{preset}_print() breaks a line"), "vector": rec, "observed_text": by_method}));
 		}
 		match guarded(|| v.print_with(made.clone()).to_string()) {
-			Ok(t) if t != exp => rep.mismatch(aspect, json!({"what": format!("print_with(Options::{preset}()) differs from the documented layout of the preset"), "vector": rec, "expected_text": exp, "observed_text": t})),
+			Ok(t) => {
+				if t != by_method {
+					rep.mismatch(aspect, json!({"what": format!("{preset}_print() differs from print_with(Options::{preset}())"), "vector": rec, "by_method": by_method, "by_options": t}));
+				}
+				if same_record && t != exp {
+					rep.mismatch(aspect, json!({"what": format!("print_with(Options::{preset}()) differs from the documented layout of the preset"), "vector": rec, "expected_text": exp, "observed_text": t}));
+				}
+			}
 			Err(p) => rep.mismatch("C13.panic", json!({"what": "printer panicked", "vector": rec, "panic": p})),
-			_ => (),
+		}
+		if is_compact && by_method != exp {
+			rep.mismatch("C08.compact", json!({"what": "compact_print() differs from the minimal serialization", "vector": rec, "expected_text": exp, "observed_text": by_method}));
 		}
 	}
 	if rep.counters["print_vectors"] % 5 == 2 {
